@@ -1029,6 +1029,24 @@ func (s *Sim) resolveState(a *Action, bs *BState) (string, string) {
 		}
 	case "extended":
 		if v := cur; v != "" {
+			// three spellings that are not the issued string: a further character, a line break a lenient decoder skips, and
+			// (for a padded base64url nonce) a last data character differing only in the bits that carry no data
+			sum := 0
+			for i := 0; i < len(v); i++ {
+				sum += int(v[i])
+			}
+			const alpha = "ABCDEFGHIJKLMNOPQRSTUVWXYZabcdefghijklmnopqrstuvwxyz0123456789-_"
+			switch sum % 3 {
+			case 1:
+				return v + "\n", "extended"
+			case 2:
+				if n := len(v); n%4 == 0 && n >= 4 && v[n-1] == '=' && v[n-2] != '=' {
+					if i := strings.IndexByte(alpha, v[n-2]); i >= 0 {
+						return v[:n-2] + string(alpha[i^1]) + "=", "extended"
+					}
+				}
+				return v[:len(v)/2] + "\r\n" + v[len(v)/2:], "extended"
+			}
 			return v + "A", "extended"
 		}
 	case "caseflip":
@@ -1204,6 +1222,17 @@ func (s *Sim) fillCode(a *Action, bs *BState, f map[string]string, kind string) 
 			if u := s.W.Store.Peek(o.PID); u != nil && u.TOTPSecretKey != "" {
 				a.Resolved, a.Secret = "othertotp", TOTPNow(u.TOTPSecretKey)
 				break
+			}
+		}
+	case "cur_tail": // the last n digits (Opt[n], 1-5) of the current period's code of the subject's secret: no code
+		a.Resolved, a.Secret = "wrong", "000008"
+		if sub != nil && kind == "totp" {
+			if u := s.W.Store.Peek(sub.PID); u != nil && u.TOTPSecretKey != "" {
+				n := 1
+				fmt.Sscan(a.opt("n"), &n)
+				if c := TOTPNow(u.TOTPSecretKey); n >= 1 && n < len(c) {
+					a.Resolved, a.Secret = "cur_tail", c[len(c)-n:]
+				}
 			}
 		}
 	case "cur", "cur_ws", "cur_sep": // exactly the current period's code of the subject's secret — verbatim, with
